@@ -864,8 +864,14 @@ def size_scenarios(quick: bool) -> list:
             out.append(dict(kind="box", N=N, C=C, k=0, p=0))
     for k in (1, 2):
         for N in ((10, 11, 12, 20, 21, 25) if quick else range(9, 34)):
-            for p in (0, 5, 10 * k, N, N + 1):
+            for p in (10 * k, N, N + 1):     # probe size given by the user (N + 1: may be refused)
                 for C in ((4, 5) if quick else (4, 5, 6, 0)):
+                    out.append(dict(kind="box", N=N, C=C, k=k, p=p))
+        # probe size chosen by the library (default, or a user value below 10 per patch); few of them: once the
+        # library accepts them each costs a 100000-point probe
+        for N in ((10, 25) if quick else (9, 10, 20, 33)):
+            for p in (0, 5):
+                for C in ((4,) if quick else (4, 0)):
                     out.append(dict(kind="box", N=N, C=C, k=k, p=p))
     seen, uniq = set(), []
     for s in out:
@@ -1005,6 +1011,7 @@ def replay_counterexamples(ctx, worlds, cex) -> dict:
         st = State(world.new_gen(world.seedmap[1]))
         F = Findings()
         ops = []
+        done = []
         hist = py_hist(c["hist"])
         # let an open operation run to its end
         for e in hist:
@@ -1015,8 +1022,12 @@ def replay_counterexamples(ctx, worlds, cex) -> dict:
                 sizes = [cc] * (n // cc) + ([n % cc] if n % cc else [])
                 e2["res"] = [(e2["res"][0][0] if e2["res"] else 1, 0, 0, tuple([cc] * j), s) for j, s in enumerate(sizes)]
             ops.append(op_text(e2, sc))
+            done.append(e2)
             if not exec_entry(world, st, e2, sc, F, list(ops), {}):
                 break
+        for it in F.items:
+            it[2]["replay"] = dict(world=world.idx, scenario=sc, entries=[compact(x) for x in done])
+            it[2]["found_by"] = f"replay of the TLC counterexample of deviation {name}"
         viol = sorted({k for kind, k, _ in F.items if kind == "violation"})
         shown[name] = dict(scenario=sc, violated_in_tlc=c["invariant"], history=ops, real_code_shows=bool(viol), keys=viol)
         F.items = [it for it in F.items if it[0] == "violation"]
@@ -1465,6 +1476,8 @@ def pool_runs(ctx, worlds, rng) -> None:
                 rec = [p.load_data() for p in cat.values()]
                 recs[W] = (int(sum(cat.get_num_records())), sorted_rows(np.concatenate(rec)))
         except LibError as err:
+            if empty_patch_rejection(err.exc):
+                continue  # documented refusal of a patch centre without data
             ctx.violation(f"C16|Catalog.from_random[BoxRandoms]|max_workers>1|raises_{type(err.exc).__name__}",
                           dict(world=world.describe(), N=N, chunksize=C, error=repr(err.exc)))
             continue
@@ -1531,23 +1544,24 @@ def run(ctx) -> None:
         nbox = len(worlds["box"])
         # size sweep: every scenario on one generator configuration (rotating), more of them in the thorough tier
         per = 1 if quick else 3
-        c1 = replay_histories(ctx, worlds, mc["size"], "size sweep",
+        c1 = replay_histories(ctx, worlds, mc["size"], "size sweep", deadline=time.time() + (45 if quick else 900),
                               world_pick=lambda i, sc: [worlds["box"][(i * 5 + j * 7) % (8 if sc["k"] else nbox)] for j in range(per)])
         ctx.sample(dict(kind="size sweep", scenarios=c1["scenarios"], histories=c1.get("histories"),
                         example="from_random(N=12, chunksize=4) ; from_random again ; RandomReader pass: each 12 records in chunks 4,4,4"))
         # histories: full depth on rotating configurations
-        deadline = t0 + (100 if quick else 1500)
+        deadline = time.time() + (60 if quick else 1500)
         c2 = replay_histories(ctx, worlds, mc["hist"], "histories", deadline=deadline,
                               world_pick=lambda i, sc: [worlds["box"][(i * 3 + j * 5 + ctx.seed) % (8 if sc["k"] else nbox)]
                                                         for j in range(1 if (quick or i == 0) else 2)])
-        allh = [x for r in mc["hist"] for x in printed_hist(r)]
+        allh = [x for r in mc["hist"] for x in printed_hist(r)
+                if x[1][-1]["op"] in ("from_random", "pass") and len({e["op"] for e in x[1]}) >= 3]
         for sc, hist in allh[:: max(1, len(allh) // 3)][:3]:
             ctx.sample(dict(scenario=sc, history=[op_text(e, sc) for e in hist],
                             expected_tokens_of_last_operation=[list(t[:3]) + [list(t[3]), t[4]] for t in hist[-1]["res"]]))
         c3 = replay_histories(ctx, worlds, mc["healpix"], "healpix histories",
                               world_pick=lambda i, sc: worlds["healpix"][: (1 if sc["k"] else 2) if quick else 3])
-        ctx.require(c2.get("histories", 0) > 100 and c1.get("histories", 0) > 100 and c3.get("histories", 0) > 20,
-                    "too few histories replayed")
+        for c in (c1, c2, c3):
+            ctx.require(c["cut_by_time_budget"] or c.get("histories", 0) > 20, "too few histories replayed")
         ctx.extra["worlds"] = [w.describe() for w in worlds["box"][:3]] + [worlds["healpix"][0].describe()]
 
         window_check(ctx, yaw, ctx.seed)
